@@ -295,9 +295,15 @@ def py_parseTooLarge(length):
 
 
 def fake_session(**attrs):
+    # a REAL session object (created without __init__), so that helper methods a refactoring introduces resolve on it
+    from lomond.session import WebsocketSession
     pings = []
     ws = types.SimpleNamespace(send_ping=lambda: pings.append(1), sent_close_time=attrs.pop('sent_close_time', None))
-    return types.SimpleNamespace(websocket=ws, pings=pings, **attrs)
+    s = object.__new__(WebsocketSession)
+    s.websocket, s.pings = ws, pings
+    for k, v in attrs.items():
+        setattr(s, k, v)
+    return s
 
 
 def fl(x):
@@ -339,7 +345,8 @@ def py_proxyDefaultPort(port, https):
     from lomond.session import WebsocketSession
     def connect_sock(host, port_, ssl=False):
         raise CapturedConnect(port_)
-    s = types.SimpleNamespace(_connect_sock=connect_sock)
+    s = object.__new__(WebsocketSession)
+    s._connect_sock = connect_sock
     url = '%s://proxy.example%s' % ('https' if https else 'http', '' if port is None else ':%d' % port)
     try:
         WebsocketSession._connect_proxy(s, url)
@@ -364,7 +371,9 @@ def py_deflateCompressorWbits(w):
     real = c.zlib
     c.zlib = types.SimpleNamespace(compressobj=lambda *a: seen.append(a), Z_DEFAULT_COMPRESSION=real.Z_DEFAULT_COMPRESSION, DEFLATED=real.DEFLATED)
     try:
-        c.Deflate.reset_compressor(types.SimpleNamespace(compress_wbits=w))
+        d_ = object.__new__(c.Deflate)
+        d_.compress_wbits = w
+        c.Deflate.reset_compressor(d_)
     finally:
         c.zlib = real
     return seen[0][2]
